@@ -19,3 +19,11 @@ claim("C02", "DESIGN.md 5/C02",
       "(numeric, BCD text, NUL-stripped text, frozen published tables, exact flag set, every target id) and every other "
       "displayed value with the decode of the unmodified template (non-interference). 84 field cases, each "
       "'Confirmed over all paths'.")
+
+claim("C03", "DESIGN.md 5/C03",
+      "SRC.toJSON / getCallouts / Callout / FRUIdentity / PCEIdentity / MRU / getErrorDetails / buildMessage / "
+      "getProcedureDesc are executed on a well-formed SRC section with one field symbolic at a time (version, flag "
+      "bits, word count 1..9, each 32-bit hex word, reference-code windows, every callout field) for BD/11/BC/other and "
+      "primary/secondary SRCs, plus a layout sweep over 0..3 callouts x all 16 FRU flag nibbles x PCE x MRU counts with "
+      "the two bytes after the section symbolic, a fixture registry for %N substitution and the procedure table; "
+      "215 cases, each 'Confirmed over all paths'.")
